@@ -15,6 +15,7 @@ import BufrModel.Drv.SubsetOp
 import BufrModel.Drv.TemplateOp
 import BufrModel.Drv.CacheOp
 import BufrModel.Drv.SessionOp
+import BufrModel.Drv.HeapOp
 import BufrModel.Drv.CompilerOp
 import BufrModel.Drv.TableDefOp
 import BufrModel.Drv.FlatOp
@@ -45,6 +46,7 @@ def statelessOps : List (String × (Json → J Json)) :=
   ("normalize", opNormalize) ::
   ("cache", opCache) ::
   ("session", opSession) ::
+  ("heap", opHeap) ::
   ("links-spec", opLinksSpec) ::
   ("pyslice", opPySlice) ::
   ("parser-history", opParserHistory) ::
